@@ -86,6 +86,19 @@ def gen_plan(rng, tier: str, idx: int) -> dict:
         tp = rng.choice(W.divisors(post))
         plan["engine"] = {"warm": warm, "post": post, "term": term, "tp": tp, "tw": tw,
                           "chains": rng.randint(1, 2), "seed": rng.randrange(2**31)}
+    elif idx % 8 == 4:
+        # builder chunk for schedules handed over with set_epochs: any valid schedule, in particular
+        # with one-iteration epochs besides the initial-values epoch and with a common divisor > 1
+        unit = rng.choice([1, 2, 3, 5, 10])
+        eps = []
+        for _ in range(rng.randint(1, 4)):
+            eps.append([rng.choice([1, 2, 3]), unit * rng.choice([1, 2, 4, 6]), 1])
+        if rng.random() < 0.6:
+            eps.insert(rng.randrange(len(eps) + 1), [rng.choice([1, 3]), 1, 1])
+        for _ in range(rng.randint(1, 2)):
+            d = rng.choice([1, unit, unit * 2, unit * 5])
+            eps.append([4, d, rng.choice(W.divisors(d))])
+        plan["engine"] = {"epochs": [[0, 1, 1]] + eps, "chains": rng.randint(1, 2), "seed": rng.randrange(2**31)}
     return plan
 
 
@@ -298,10 +311,17 @@ def run_builder_chunk(e, V, log, counters):
     ker = W.ProbeKernel(0, plan["kernels"][0]["keys"])
     b = gs.EngineBuilder(seed=e["seed"], num_chains=C)
     try:
-        b.set_duration(warmup_duration=e["warm"], posterior_duration=e["post"], term_duration=e["term"],
-                       thinning_posterior=e["tp"], thinning_warmup=e["tw"])
+        if "epochs" in e:
+            from liesel.goose.epoch import EpochConfig, EpochType
+
+            b.set_epochs([EpochConfig(EpochType(t), d, th, None) for t, d, th in e["epochs"]])
+            counters["probe.builder_chunk_set_epochs"] = 1
+            counters["probe.builder_chunk_second_one_iteration_epoch"] = int(any(d == 1 for _, d, _ in e["epochs"][1:]))
+        else:
+            b.set_duration(warmup_duration=e["warm"], posterior_duration=e["post"], term_duration=e["term"],
+                           thinning_posterior=e["tp"], thinning_warmup=e["tw"])
     except Exception as ex:
-        raise SutError(f"set_duration|{type(ex).__name__}|?|set_duration({e}) with admissible arguments raised: {ex}") from ex
+        raise SutError(f"set_duration|{type(ex).__name__}|?|set_duration/set_epochs({e}) with admissible arguments raised: {ex}") from ex
     b.set_model(gs.DictInterface(lambda s: jnp.float32(0.0)))
     b.set_initial_values(W.initial_state(plan, 0))
     b.add_kernel(ker)
@@ -315,8 +335,9 @@ def run_builder_chunk(e, V, log, counters):
         raise SutError(f"builder-chunk|{type(ex).__name__}|?|set_duration({e}) -> {cfgs}: {ex}") from ex
     n_inf = np.asarray(res.transition_infos.combine_all().unwrap()["kernel_00"].error_code).shape[1]
     total = sum(c[1] for c in cfgs[1:])
-    if n_inf != total or total != e["warm"] + e["post"]:
-        V.add("builder-chunk", "transitions", f"set_duration({e}): {n_inf} transitions sampled, schedule {cfgs} has {total}, requested {e['warm'] + e['post']}")
+    requested = sum(d for _, d, _ in e["epochs"][1:]) if "epochs" in e else e["warm"] + e["post"]
+    if n_inf != total or total != requested:
+        V.add("builder-chunk", "transitions", f"set_duration/set_epochs({e}): {n_inf} transitions sampled, schedule {cfgs} has {total}, requested {requested}")
     n_st = np.asarray(res.get_samples()["x0_0"]).shape[1]
     exp = 1 + sum(c[1] // c[2] for c in cfgs[1:])
     if n_st != exp:
